@@ -517,19 +517,33 @@ func isPrefix(a, b []int) bool {
 
 func equalInts(a, b []int) bool { return len(a) == len(b) && isPrefix(a, b) }
 
-// prunerState inspects the goroutine stacks: "idle" (blocked in Run's select), "head" / "l1" (inside
-// that handler).  Sound: a stack dump is a consistent snapshot of what every goroutine is executing.
+// prunerState inspects the goroutine stacks: "idle" = the pruner's Run goroutine is BLOCKED in its select
+// (so it holds no event), "head" / "l1" = inside that handler, "busy" = anything else (e.g. between the
+// receive and the call of the handler).  Sound: a stack dump is a consistent snapshot of every goroutine.
 func prunerState() string {
 	buf := make([]byte, 1<<20)
 	n := runtime.Stack(buf, true)
-	buf = buf[:n]
-	switch {
-	case bytes.Contains(buf, []byte("pruner.(*Pruner).onNewBlock")):
-		return "head"
-	case bytes.Contains(buf, []byte("pruner.(*Pruner).onNewL1Head")):
-		return "l1"
+	state := "idle"
+	for _, g := range bytes.Split(buf[:n], []byte("\n\n")) {
+		if !bytes.Contains(g, []byte("pruner.(*Pruner).Run(")) {
+			continue
+		}
+		switch {
+		case bytes.Contains(g, []byte("pruner.(*Pruner).onNewBlock")):
+			return "head"
+		case bytes.Contains(g, []byte("pruner.(*Pruner).onNewL1Head")):
+			state = "l1"
+		default:
+			hdr := g
+			if i := bytes.IndexByte(g, '\n'); i >= 0 {
+				hdr = g[:i]
+			}
+			if !bytes.Contains(hdr, []byte("[select")) && state == "idle" {
+				state = "busy"
+			}
+		}
 	}
-	return "idle"
+	return state
 }
 
 // digested (mu held) is the engine's side of AssumeSlowL1: nothing of an abandoned fork is left in
@@ -541,7 +555,8 @@ func (r *run) digested() bool {
 	if len(r.inc.headSub.Recv()) != 0 {
 		return false
 	}
-	return prunerState() != "head"
+	st := prunerState()
+	return st == "idle" || st == "l1"
 }
 
 // a1Limit: the highest height L1 may announce as final without any remaining step of the plan
@@ -881,15 +896,19 @@ func (r *run) waitFor(pred func() any, timeout time.Duration) any {
 // opened, until the node is quiescent on the source's chain.
 func (r *run) stablePhase() bool {
 	const quietNeeded = 12
-	deadline := time.Now().Add(2 * stallTimeout)
-	quiet, lastSeq := 0, -1
-	for time.Now().Before(deadline) {
+	// the node fails to converge when it produces no event for stallTimeout (or keeps busy for a minute)
+	deadline, hardCap := time.Now().Add(stallTimeout), time.Now().Add(60*time.Second)
+	quiet, lastSeq, progressSeq := 0, -1, -1
+	for time.Now().Before(deadline) && time.Now().Before(hardCap) {
 		r.settle()
 		r.mu.Lock()
 		r.flushCancelled()
 		if r.parked {
 			r.mu.Unlock()
 			return false
+		}
+		if r.seq != progressSeq {
+			progressSeq, deadline = r.seq, time.Now().Add(stallTimeout)
 		}
 		conv := equalInts(r.shadow, r.cur()) && r.pipelineClean(false) && len(r.prGates) == 0 &&
 			len(r.inc.headSub.Recv()) == 0 && len(r.inc.l1Sub.Recv()) == 0 && r.seq == lastSeq && prunerState() == "idle"
